@@ -36,6 +36,8 @@ def run(ctx):
     progs = rc.programs(ctx, ctx.scale(900, None), ctx.scale(200, 3000))
     osets = rc.RENAME_OPTION_SETS if ctx.tier == 'thorough' else [rc.RENAME_OPTION_SETS[i] for i in (0, 2, 4)]
     run_programs(ctx, progs, osets, 'generated')
+    import scopegen
+    run_programs(ctx, scopegen.export_programs(), rc.RENAME_OPTION_SETS, 'interface-declarations')
     rc.assigner_correspondence(ctx, progs[:ctx.scale(300, 3000)], [(True, False, False), (True, True, True)])
     for k in ctx.known:
         if k.get('replay_source'):
